@@ -109,6 +109,29 @@ func genGrammar(r *rand.Rand, o genOpts) (G []gnode, root int, nts []int) {
 		for j := 0; j < nalt; j++ {
 			l := 1 + r.Intn(3)
 			var ks []int
+			if o.lrfree && r.Intn(3) == 0 {
+				// recursion behind a nullable prefix and a consuming element: the prefix matches nothing, the
+				// element after it consumes, the counters must not survive that
+				switch r.Intn(3) {
+				case 0:
+					ks = append(ks, b.add(gnode{K: "opt", Kids: []int{term()}}))
+				case 1:
+					ks = append(ks, b.add(gnode{K: "empty"}))
+				default:
+					ks = append(ks, b.add(gnode{K: "seq", Mode: "many", Kids: []int{term()}}))
+				}
+				ks = append(ks, term())
+				if r.Intn(2) == 0 {
+					ks = append(ks, nts[r.Intn(nnt)])
+				} else {
+					ks = append(ks, b.add(gnode{K: "opt", Kids: []int{nts[r.Intn(nnt)]}}))
+				}
+				if r.Intn(3) == 0 {
+					ks = append(ks, term())
+				}
+				alts = append(alts, b.add(gnode{K: "seq", Mode: "of", Kids: ks}))
+				continue
+			}
 			for q := 0; q < l; q++ {
 				ks = append(ks, atom(0))
 			}
